@@ -570,7 +570,7 @@ def _make_bfr():
             (ElementwiseAbs(), "{numpy}.abs({args})"),
             (DotProduct(), "{numpy}.vdot({args})"),
             (Len(), "{numpy}.size({args})"),
-            (IsNaN(), "{numpy}.isnan({args})"),
+            (IsNaN(), "{numpy}.isnan({args}).any()"),
             (Array_(), "self._builtin_array({args})"),
             (MatMul(), "self._builtin_matmul({args})"),
             (Transpose(), "self._builtin_transpose({args})"),
